@@ -1,6 +1,9 @@
 package apph
 
-import "fmt"
+import (
+	"fmt"
+	"math/big"
+)
 
 // Corpus: hand-written histories that once separated the model from the code or exhibit a known
 // finding.  They run before the generated histories in every application-level check.
@@ -478,6 +481,59 @@ func CorpusHistories(scratch string, names map[string]bool) ([]*History, []strin
 			easyParams(g)
 			g.Params.MinVotingPeriodBlocks, g.Params.MaxVotingPeriodBlocks, g.Params.LazyApplyingBlocks = 1, 3, 1
 		}},
+		// with three validators the stake-change limiter is on: an unstaking transaction of somebody who does
+		// not own the stake is refused and must not use up any of the block's budget — the owner's own
+		// unstaking (and a further delegation) right after it go through as if it had never been there
+		{"refused-unstake-before-the-owners", 3, 2, 8, func(s *Sim, h int64) []*TxSpec {
+			y := s.User(0)
+			switch h {
+			case 3:
+				return []*TxSpec{s.TxStake(y, s.Val(0).Addr, 100)}
+			case 4, 6:
+				for _, st := range s.stakes {
+					if string(st.From) == string(y.Addr) {
+						bad := s.TxUnstake(s.User(1), st.To, st.Hash)
+						bad.Note = "unstake-not-owner"
+						own := s.TxUnstake(y, st.To, st.Hash)
+						more := s.TxStake(s.User(1), s.Val(0).Addr, 50)
+						return []*TxSpec{bad, own, more}
+					}
+				}
+				return []*TxSpec{s.TxStake(y, s.Val(0).Addr, 100)}
+			case 5:
+				return []*TxSpec{s.TxStake(y, s.Val(0).Addr, 100)}
+			}
+			return nil
+		}, func(g *Genesis) {
+			easyParams(g)
+			for i := range g.Vals {
+				g.Vals[i].Power = 1000
+			}
+			for i := range g.Holders {
+				g.Holders[i].Balance = rigo(5000)
+			}
+		}},
+		// stake amounts that are not a whole number of power units: refused for a delegation as for a
+		// self-stake (the power of a stake is amount / 10^18: a remainder would be debited and never returned)
+		{"stake-amount-with-a-fraction", 1, 2, 6, func(s *Sim, h int64) []*TxSpec {
+			half := new(big.Int).Div(e18, big.NewInt(2))
+			frac := func(t *TxSpec, note string) *TxSpec {
+				t.Amount = new(big.Int).Add(u256(t.Amount).ToBig(), half).String()
+				t.Note = note
+				return t
+			}
+			switch h {
+			case 2:
+				return []*TxSpec{frac(s.TxStake(s.User(0), s.Val(0).Addr, 2), "delegation-of-2.5-units"), s.TxStake(s.User(0), s.Val(0).Addr, 2)}
+			case 3:
+				return []*TxSpec{frac(s.TxStake(s.User(1), s.User(1).Addr, 1), "self-stake-of-1.5-units"), s.TxStake(s.User(1), s.User(1).Addr, 1)}
+			case 4:
+				one := s.TxStake(s.User(0), s.Val(0).Addr, 0)
+				one.Amount, one.Note = "1", "delegation-of-one-fon"
+				return []*TxSpec{one}
+			}
+			return nil
+		}, func(g *Genesis) { easyParams(g) }},
 		// a parameter document that names only a few parameters wins: the others keep their values — in the
 		// running node AND in what is stored (a node restarted afterwards reads the stored set); transactions
 		// that depend on parameters the document left out follow
